@@ -116,6 +116,8 @@ type ListQ struct {
 	// structural (AST) facts
 	LockCovered bool
 	WaitLoop    bool
+	// no method locks twice (critical sections are not split); sibling files never touch the queue's fields
+	SectionsAtomic, FieldsPrivate bool
 }
 
 type kindInfo struct {
@@ -381,6 +383,15 @@ func LoadListQ(repo, kind string) ListQ {
 	// structural facts from the AST
 	guarded := []string{"reqList", "ctrlList", "closed", "cleared"}
 	q.LockCovered = lockCoveredAll(f, ki.recv, "lock", guarded)
+	q.SectionsAtomic = sectionsAtomic(f, ki.recv, "lock")
+	q.FieldsPrivate = fieldsPrivate(repo, filepath.Dir(ki.file), filepath.Base(ki.file), ki.recv,
+		[]string{"reqList", "ctrlList", "closed", "cleared", "lock", "cond", "stopChan", "clearChan"})
+	if !q.SectionsAtomic {
+		q.Why = append(q.Why, "critical-section-split")
+	}
+	if !q.FieldsPrivate {
+		q.Why = append(q.Why, "fields-used-outside-"+filepath.Base(ki.file))
+	}
 	q.WaitLoop = waitLoops(f, ki.recv, "Len")
 	q.AddPushesBack = callsOnly(f, ki.recv, []string{ki.add, ki.addCtrl}, "PushBack", "PushFront")
 	q.PriorPushesFront = callsOnly(f, ki.recv, []string{ki.prior, ki.priorCtrl}, "PushFront", "PushBack")
@@ -628,6 +639,113 @@ func methodsOf(f *gofacts.File, recv string) []*ast.FuncDecl {
 	return out
 }
 
+// sectionsAtomic: no method of recv takes its mutex more than once — a critical section is never cut in two by an
+// `Unlock(); Lock()` pair (only `cond.Wait()` may release the lock inside a method). Together with `lockCovered` this is
+// what makes every method one atomic step of the Lean transition system.
+func sectionsAtomic(f *gofacts.File, recv, mu string) bool {
+	for _, fd := range methodsOf(f, recv) {
+		locks := 0
+		ast.Inspect(fd.Body, func(x ast.Node) bool {
+			if c, ok := x.(*ast.CallExpr); ok && isMutexCallExpr(c, mu, "Lock") {
+				locks++
+			}
+			return true
+		})
+		if locks > 1 {
+			return false
+		}
+	}
+	return true
+}
+
+// fieldsPrivate: in the files of package dir other than the anchored one, no selector `<x>.<field>` where <x> is a
+// variable, parameter or struct field declared with the queue type (by name) and <field> is one of the queue's mutable
+// or synchronisation fields — sibling code uses the queue only through its methods.
+func fieldsPrivate(repo, dir, anchored, typ string, fields []string) bool {
+	ents, err := os.ReadDir(filepath.Join(repo, dir))
+	if err != nil {
+		return false
+	}
+	isQ := func(e ast.Expr) bool {
+		for {
+			switch t := e.(type) {
+			case *ast.StarExpr:
+				e = t.X
+				continue
+			case *ast.Ident:
+				return t.Name == typ
+			}
+			return false
+		}
+	}
+	for _, e := range ents {
+		if e.IsDir() || !strings.HasSuffix(e.Name(), ".go") || strings.HasSuffix(e.Name(), "_test.go") || e.Name() == anchored {
+			continue
+		}
+		f, err := gofacts.Load(repo, filepath.Join(dir, e.Name()))
+		if err != nil {
+			return false
+		}
+		names := map[string]bool{}
+		ast.Inspect(f.AST, func(x ast.Node) bool {
+			switch n := x.(type) {
+			case *ast.Field:
+				if isQ(n.Type) {
+					for _, id := range n.Names {
+						names[id.Name] = true
+					}
+				}
+			case *ast.ValueSpec:
+				if n.Type != nil && isQ(n.Type) {
+					for _, id := range n.Names {
+						names[id.Name] = true
+					}
+				}
+			case *ast.AssignStmt:
+				// x := NewQ(...) / &Q{...}
+				if n.Tok == token.DEFINE && len(n.Lhs) == 1 && len(n.Rhs) == 1 {
+					src := f.Src(n.Rhs[0])
+					if id, ok := n.Lhs[0].(*ast.Ident); ok && (strings.HasPrefix(src, "New"+typ+"(") || strings.HasPrefix(src, "&"+typ+"{")) {
+						names[id.Name] = true
+					}
+				}
+			}
+			return true
+		})
+		bad := false
+		ast.Inspect(f.AST, func(x ast.Node) bool {
+			s, ok := x.(*ast.SelectorExpr)
+			if !ok {
+				return true
+			}
+			isField := false
+			for _, fl := range fields {
+				if s.Sel.Name == fl {
+					isField = true
+				}
+			}
+			if !isField {
+				return true
+			}
+			switch b := s.X.(type) {
+			case *ast.Ident:
+				if names[b.Name] {
+					bad = true
+				}
+			case *ast.SelectorExpr:
+				if names[b.Sel.Name] {
+					bad = true
+				}
+			}
+			return !bad
+		})
+		if bad {
+			return false
+		}
+	}
+	return true
+}
+
 func lockCoveredAll(f *gofacts.File, recv, mu string, guarded []string) bool {
 	ms := methodsOf(f, recv)
 	if len(ms) == 0 {
@@ -758,9 +876,9 @@ func methodSetIs(repo, dir, recv string, want []string) bool {
 
 // SyncQ describes queue/syncq.SyncQueue.
 type SyncQ struct {
-	PushGuardsClosed, TryPopItemsFirst, Known, Fifo, LockCovered, WaitLoop, MethodSet bool
-	PushWake, CloseWake                                                               string
-	Why                                                                               []string
+	PushGuardsClosed, TryPopItemsFirst, Known, Fifo, LockCovered, WaitLoop, MethodSet, SectionsAtomic, FieldsPrivate bool
+	PushWake, CloseWake                                                                                              string
+	Why                                                                                                              []string
 }
 
 func LoadSyncQ(repo string) SyncQ {
@@ -826,6 +944,11 @@ func LoadSyncQ(repo string) SyncQ {
 	// structural
 	guarded := []string{"buffer", "closed"}
 	s.LockCovered = lockCoveredAll(f, "SyncQueue", "lock", guarded)
+	s.SectionsAtomic = sectionsAtomic(f, "SyncQueue", "lock")
+	s.FieldsPrivate = fieldsPrivate(repo, "queue/syncq", "syncqueue.go", "SyncQueue", []string{"buffer", "closed", "lock", "popable"})
+	if !s.SectionsAtomic {
+		s.Why = append(s.Why, "critical-section-split")
+	}
 	s.WaitLoop = waitLoops(f, "SyncQueue", "Length")
 	s.Fifo = callsOnly(f, "SyncQueue", []string{"Push"}, "Add", "Remove") && callsOnly(f, "SyncQueue", []string{"Pop", "TryPop"}, "Peek", "Add") &&
 		callsOnly(f, "SyncQueue", []string{"Pop", "TryPop"}, "Remove", "Get")
@@ -845,6 +968,7 @@ func LoadSyncQ(repo string) SyncQ {
 type PriQ struct {
 	HigherFirst, OlderFirstOnTie, FullAtCap, Known bool
 	SeqIncrements, Heap, LockCovered, MethodSet    bool
+	SectionsAtomic, FieldsPrivate                  bool
 	// C13
 	PushSignals  bool // Push calls tyrSignal after every successful push
 	PopResignals bool // Pop calls tyrSignal iff entries remain
@@ -933,6 +1057,11 @@ func LoadPriQ(repo string) PriQ {
 		unk("WaitCh")
 	}
 	p.LockCovered = lockCoveredAll(f, "PriQueue", "mu", []string{"entries", "curSeq"})
+	p.SectionsAtomic = sectionsAtomic(f, "PriQueue", "mu")
+	p.FieldsPrivate = fieldsPrivate(repo, "queue/priq", "priority_queue.go", "PriQueue", []string{"entries", "curSeq", "mu", "signal", "capacity"})
+	if !p.SectionsAtomic {
+		p.Why = append(p.Why, "critical-section-split")
+	}
 	p.MethodSet = methodSetIs(repo, "queue/priq", "PriQueue", []string{"Len", "Pop", "Push", "WaitCh", "tyrSignal"}) &&
 		methodSetIs(repo, "queue/priq", "EntryList", []string{"Len", "Less", "Pop", "Push", "Swap"})
 	if !p.LockCovered {
@@ -1015,7 +1144,9 @@ func GenC12(repo string) (text, summary string) {
 		a.every(func(q ListQ) bool { return q.ClosesStopChan }),
 		a.every(func(q ListQ) bool { return q.LockCovered }) && a.sq.LockCovered && a.pr.LockCovered,
 		a.every(func(q ListQ) bool { return q.MethodSet }) && a.sq.MethodSet && a.pr.MethodSet,
+		a.every(func(q ListQ) bool { return q.FieldsPrivate }) && a.sq.FieldsPrivate && a.pr.FieldsPrivate,
 	}
+	atomic := a.every(func(q ListQ) bool { return q.SectionsAtomic }) && a.sq.SectionsAtomic && a.pr.SectionsAtomic
 	var fs []string
 	for _, f := range facts {
 		fs = append(fs, lb(f))
@@ -1027,14 +1158,15 @@ namespace Nv.Gen.C12
 def cfg : Nv.C12.Cfg :=
   { q := %s, async := %s, mux := %s, mq := %s,
     syncq := ⟨%s, %s, %s⟩,
-    priq := ⟨%s, %s, %s, %s⟩ }
+    priq := ⟨%s, %s, %s, %s⟩,
+    sectionsAtomic := %s }
 def facts : Nv.C12.Facts := ⟨%s⟩
 end Nv.Gen.C12
 `, shapeLean(a.qs[0]), shapeLean(a.qs[1]), shapeLean(a.qs[2]), shapeLean(a.qs[3]),
 		lb(a.sq.PushGuardsClosed), lb(a.sq.TryPopItemsFirst), lb(a.sq.Known),
-		lb(a.pr.HigherFirst), lb(a.pr.OlderFirstOnTie), lb(a.pr.FullAtCap), lb(a.pr.Known), strings.Join(fs, ", "))
-	summary = fmt.Sprintf("extract C12: shape(addClosedFirst,priorBounded,popChecksClosed,ctrlFirst,known) q=%s async=%s mux=%s mq=%s syncq=%v,%v,%v priq(higherFirst,olderFirstOnTie,fullAtCap,known)=%v,%v,%v,%v facts=%s unrecognised=%v",
-		shapeLean(a.qs[0]), shapeLean(a.qs[1]), shapeLean(a.qs[2]), shapeLean(a.qs[3]), a.sq.PushGuardsClosed, a.sq.TryPopItemsFirst, a.sq.Known,
+		lb(a.pr.HigherFirst), lb(a.pr.OlderFirstOnTie), lb(a.pr.FullAtCap), lb(a.pr.Known), lb(atomic), strings.Join(fs, ", "))
+	summary = fmt.Sprintf("extract C12: sectionsAtomic=%v shape(addClosedFirst,priorBounded,popChecksClosed,ctrlFirst,known) q=%s async=%s mux=%s mq=%s syncq=%v,%v,%v priq(higherFirst,olderFirstOnTie,fullAtCap,known)=%v,%v,%v,%v facts=%s unrecognised=%v",
+		atomic, shapeLean(a.qs[0]), shapeLean(a.qs[1]), shapeLean(a.qs[2]), shapeLean(a.qs[3]), a.sq.PushGuardsClosed, a.sq.TryPopItemsFirst, a.sq.Known,
 		a.pr.HigherFirst, a.pr.OlderFirstOnTie, a.pr.FullAtCap, a.pr.Known, strings.Join(fs, ","), a.why())
 	return text, summary
 }
@@ -1061,20 +1193,22 @@ func GenC13(repo string) (text, summary string) {
 	cfs = append(cfs, fmt.Sprintf("⟨%s, %s⟩", lb(a.sq.LockCovered), lb(a.sq.WaitLoop)))
 	stop := a.every(func(q ListQ) bool { return q.ClosesStopChan })
 	msets := a.every(func(q ListQ) bool { return q.MethodSet }) && a.sq.MethodSet && a.pr.MethodSet
+	atomic := a.every(func(q ListQ) bool { return q.SectionsAtomic }) && a.sq.SectionsAtomic && a.pr.SectionsAtomic
+	priv := a.every(func(q ListQ) bool { return q.FieldsPrivate }) && a.sq.FieldsPrivate && a.pr.FieldsPrivate
 	text = fmt.Sprintf(`import Nv.Model.C13
 set_option linter.unusedVariables false
 /-! GENERATED by `+"`c13 extract`"+` from syncx/pipe/{q,async,mux,mq}, queue/syncq, queue/priq — do not edit. -/
 namespace Nv.Gen.C13
 def cfg : Nv.C13.Cfg :=
   { q := %s, async := %s, mux := %s, mq := %s, syncq := %s,
-    priq := ⟨%s, %s⟩ }
+    priq := ⟨%s, %s⟩, sectionsAtomic := %s }
 def facts : Nv.C13.Facts :=
   { q := %s, async := %s, mux := %s, mq := %s, syncq := %s,
-    priq := ⟨%s, %s, %s⟩, closesStopChan := %s, methodSets := %s, priqLockCovered := %s }
+    priq := ⟨%s, %s, %s⟩, closesStopChan := %s, methodSets := %s, priqLockCovered := %s, fieldsPrivate := %s }
 end Nv.Gen.C13
-`, wcs[0], wcs[1], wcs[2], wcs[3], wcs[4], lb(a.pr.PushSignals), lb(a.pr.PopResignals),
-		cfs[0], cfs[1], cfs[2], cfs[3], cfs[4], lb(a.pr.TrySignalNB), lb(a.pr.ChanCap1), lb(a.pr.Known), lb(stop), lb(msets), lb(a.pr.LockCovered))
-	summary = fmt.Sprintf("extract C13: wake(add,prior,close,tryClose) q=%s async=%s mux=%s mq=%s syncq=%s priq(pushSignals,popResignals)=%v,%v facts(lockCovered,waitLoop)=%s priqfacts=%v,%v,%v closesStopChan=%v methodSets=%v unrecognised=%v",
-		wcs[0], wcs[1], wcs[2], wcs[3], wcs[4], a.pr.PushSignals, a.pr.PopResignals, strings.Join(cfs, ""), a.pr.TrySignalNB, a.pr.ChanCap1, a.pr.Known, stop, msets, a.why())
+`, wcs[0], wcs[1], wcs[2], wcs[3], wcs[4], lb(a.pr.PushSignals), lb(a.pr.PopResignals), lb(atomic),
+		cfs[0], cfs[1], cfs[2], cfs[3], cfs[4], lb(a.pr.TrySignalNB), lb(a.pr.ChanCap1), lb(a.pr.Known), lb(stop), lb(msets), lb(a.pr.LockCovered), lb(priv))
+	summary = fmt.Sprintf("extract C13: sectionsAtomic=%v fieldsPrivate=%v wake(add,prior,close,tryClose) q=%s async=%s mux=%s mq=%s syncq=%s priq(pushSignals,popResignals)=%v,%v facts(lockCovered,waitLoop)=%s priqfacts=%v,%v,%v closesStopChan=%v methodSets=%v unrecognised=%v",
+		atomic, priv, wcs[0], wcs[1], wcs[2], wcs[3], wcs[4], a.pr.PushSignals, a.pr.PopResignals, strings.Join(cfs, ""), a.pr.TrySignalNB, a.pr.ChanCap1, a.pr.Known, stop, msets, a.why())
 	return text, summary
 }
